@@ -1,9 +1,27 @@
 import UralModel.Model.Normalize
+import UralModel.Lemmas.Normalize
 /-!
 # C05 — normalize_url only deletes irrelevant parts and honours its options
+
+Statements are about the model `Ural.Normalize` (`Model/Normalize.lean`), for **all** parsed
+inputs `p : Parsed`, all option settings `o : Opts`, every IDNA decoder `puny`, every parser
+`parse` and every platform rewriting `platform`.  `normComps` is the result of
+`normalize_url` before `unsplit_netloc` glues user, password, host and port together
+(`normParts_glue`); the components are compared with those of the parsed input.
+
+* host: `normalize_host_deletion_only` (+ `HostDel`, an explicit relation on label lists);
+* port: `normalize_port`;
+* path: `normalize_path_deletion` / `normalize_path_once` (chain resolved path → at most one AMP
+  marker → index page → root rule → trailing slashes → final (un)quoting) and the corollary
+  `normalize_path_sublist`;
+* query: `normalize_query_sublist`;
+* options: `option_*_off` (one per documented option);
+* `normalize_unparseable_identity`, `normalize_total`;
+* `platform_aware=True`: `normalize_platform_partial` (hypothesis: the platform branch leaves
+  the string alone) — the full statement `FullPlatform` is false (`fullPlatform_false`).
 -/
 namespace Ural.Props.C05
-open Ural.Py Ural.UrlParts Ural.Normalize
+open Ural.Py Ural.UrlParts Ural.Normalize Ural.Quote Ural.Canonicalize
 
 /-! ## table obligations: the hand-written scanners are tied to the regenerated patterns -/
 
@@ -51,6 +69,342 @@ theorem sLambda_probes :
 /-- `s` is the only callable entry of `IRRELEVANT_QUERY_COMBOS` -/
 theorem queryCombosCallable_eq : Gen.Normalize.queryCombosCallable = ["s"] := by decide
 
+
+/-! ## the result tuple is the components glued together -/
+
+theorem normParts_glue (puny : Str → Str) (o : Opts) (hp : Bool) (p : Parsed) :
+    let c := normComps puny o hp p
+    normParts puny o hp p =
+      { scheme := c.scheme, netloc := unsplitNetloc c.user c.pass c.host c.port,
+        path := c.path, query := safeSerializeQsl c.qsl, fragment := some c.fragment } := rfl
+
+/-! ## host -/
+
+/-- **host deletion-only**: `h'` is the parsed host `h`, lower-cased and IDNA-decoded, from
+whose label list only whole labels of the irrelevant set (`www`, `www`+digit, `mobile`, `m`,
+and `amp` when `amp = true`) were removed (`DelSub`), and from which at most a leading `amp-`
+was then cut (only when `amp = true`; what follows is IDNA-decoded, since the cut can reveal
+an `xn--` label) — nothing else. -/
+def HostDel (puny : Str → Str) (amp : Bool) (h h' : Str) : Prop :=
+  ∃ mid, DelSub (fun l => isIrrelevantLabel amp l = true)
+      (splitOn (lower (decodePunycodeHostname puny h)) '.') (splitOn mid '.') ∧
+    (h' = mid ∨ (amp = true ∧ ∃ rest, mid = ampDash ++ rest ∧ h' = decodePunycodeHostname puny rest))
+
+theorem ampPrefix_cases (puny : Str → Str) (amp : Bool) (mid : Str) :
+    (if amp then stripAmpPrefix puny mid else mid) = mid ∨
+    (amp = true ∧ ∃ rest, mid = ampDash ++ rest ∧
+      (if amp then stripAmpPrefix puny mid else mid) = decodePunycodeHostname puny rest) := by
+  cases amp with
+  | false => left; rfl
+  | true =>
+    simp only [if_true]
+    unfold stripAmpPrefix
+    cases hs : startsWith mid ampDash with
+    | false => left; simp
+    | true =>
+      right
+      refine ⟨by trivial, mid.drop 4, ?_, by simp⟩
+      have := startsWith_eq_append hs
+      simpa [ampDash] using this
+
+theorem normHost_del (puny : Str → Str) (o : Opts) (h : Str) (hne : h ≠ []) :
+    HostDel puny o.normalizeAmp h (normHost puny o h) ∧
+    (o.stripIrrelevantSubdomains = false →
+      normHost puny o h = (if o.normalizeAmp then stripAmpPrefix puny (lower (decodePunycodeHostname puny h))
+        else lower (decodePunycodeHostname puny h))) := by
+  have he : h.isEmpty = false := by cases h <;> simp_all
+  unfold normHost
+  simp only [he, Bool.false_eq_true, if_false]
+  constructor
+  · cases hs : (!(lower (decodePunycodeHostname puny h)).isEmpty && o.stripIrrelevantSubdomains) with
+    | true =>
+      simp only [if_true]
+      refine ⟨subdomainSub o.normalizeAmp (lower (decodePunycodeHostname puny h)), subdomainSub_labels _ _, ?_⟩
+      exact ampPrefix_cases puny o.normalizeAmp _
+    | false =>
+      simp only [Bool.false_eq_true, if_false]
+      refine ⟨lower (decodePunycodeHostname puny h), DelSub.refl _, ?_⟩
+      exact ampPrefix_cases puny o.normalizeAmp _
+  · intro hs
+    simp [hs]
+
+/-- **the result host is the input host with only whole irrelevant labels (or a leading
+`amp-`) removed, lower-cased and IDNA-decoded** -/
+theorem normalize_host_deletion_only (puny : Str → Str) (o : Opts) (hp : Bool) (p : Parsed)
+    (h : Str) (hh : p.hostname = some h) (hne : h ≠ []) :
+    ∃ h', (normComps puny o hp p).host = some h' ∧ HostDel puny o.normalizeAmp h h' :=
+  ⟨normHost puny o h, by simp [normComps, hh], (normHost_del puny o h hne).1⟩
+
+/-- no host, or an empty one, stays as it is -/
+theorem normalize_host_absent (puny : Str → Str) (o : Opts) (hp : Bool) (p : Parsed) :
+    (p.hostname = none → (normComps puny o hp p).host = none) ∧
+    (p.hostname = some [] → (normComps puny o hp p).host = some []) := by
+  constructor <;> intro h <;> simp [normComps, h, normHost]
+
+/-- with `normalize_amp` off nothing AMP-related happens to the host: no `amp-` cut, and `amp`
+is not in the label set -/
+theorem hostDel_no_amp (puny : Str → Str) (h h' : Str) (hd : HostDel puny false h h') :
+    DelSub (fun l => isIrrelevantLabel false l = true)
+      (splitOn (lower (decodePunycodeHostname puny h)) '.') (splitOn h' '.') ∧
+    isIrrelevantLabel false "amp".toList = false := by
+  obtain ⟨mid, h1, h2 | ⟨h2, _⟩⟩ := hd
+  · exact ⟨h2 ▸ h1, by decide⟩
+  · exact absurd h2 (by decide)
+
+/-- look-alikes are not in the label set (D16): the relation is not vacuous on them -/
+example : isIrrelevantLabel true "forum-m".toList = false ∧ isIrrelevantLabel true "wwwx".toList = false ∧
+    isIrrelevantLabel true "www22".toList = false ∧ isIrrelevantLabel true "m-a".toList = false ∧
+    isIrrelevantLabel true "ampx".toList = false ∧ isIrrelevantLabel true "WWW2".toList = true ∧
+    isIrrelevantLabel true "Mobile".toList = true ∧ isIrrelevantLabel false "amp".toList = false := by decide
+
+/-- non-vacuity: `www.forum-m.M.example.com` loses `www` and `M`, keeps `forum-m` -/
+example : normHost id {} "WWW.forum-m.M.Example.com".toList = "forum-m.example.com".toList := by
+  decide +kernel
+
+/-- the deletion relation really excludes over-deletion: `forum-example.com` is not obtained
+from `forum-m.example.com` by removing whole irrelevant labels -/
+example : ¬ DelSub (fun l => isIrrelevantLabel true l = true)
+    (splitOn "forum-m.example.com".toList '.') (splitOn "forum-example.com".toList '.') := by
+  decide +kernel
+
+/-! ## port -/
+
+/-- **a port is kept iff it is not 80 or 443** (the function's "default ports", whatever the
+scheme) -/
+theorem normalize_port (puny : Str → Str) (o : Opts) (hp : Bool) (p : Parsed) :
+    (∀ n, p.port = some n → n ≠ 80 → n ≠ 443 → (normComps puny o hp p).port = some n) ∧
+    (p.port = some 80 ∨ p.port = some 443 ∨ p.port = none → (normComps puny o hp p).port = none) := by
+  constructor
+  · intro n h h1 h2; simp [normComps, h, h1, h2]
+  · rintro (h | h | h) <;> simp [normComps, h]
+
+/-- a parsed URL for the non-vacuity examples:
+`HTTP://User:Pw@WWW.M.Example.com:8080/A/b/index.html?utm_source=x&b=2&a=1#top` -/
+def sample : Parsed where
+  scheme := "http".toList
+  netloc := "User:Pw@WWW.M.Example.com:8080".toList
+  path := "/A/b/index.html".toList
+  query := "utm_source=x&b=2&a=1".toList
+  fragment := "top".toList
+  username := some "User".toList
+  password := some "Pw".toList
+  hostname := some "www.m.example.com".toList
+  port := some 8080
+
+example : (normComps id {} true sample).port = some 8080 ∧
+    (normComps id {} true { sample with port := some 443 }).port = none := by decide +kernel
+
+/-! ## path -/
+
+/-- the final (un)quoting of the path -/
+def finPath (o : Opts) (p : Str) : Str := if o.quoted then safelyQuote p else unquotePath p
+
+/-- the resolved path of the input: unescaped, dot segments and double slashes resolved, the
+trailing slash kept unless `strip_trailing_slash` (and, with the undocumented `lowercase`
+hook that `fingerprint_url` sets, lower-cased right after unescaping) -/
+def resolvedPath (o : Opts) (path : Str) : Str :=
+  resolveUnquoted o.stripTrailingSlash (if o.lowercase then lower (unquotePath path) else unquotePath path)
+
+/-- through the documented API (`lowercase = false`) the case is untouched -/
+theorem resolvedPath_eq (o : Opts) (path : Str) (h : o.lowercase = false) :
+    resolvedPath o path = resolvePath o.stripTrailingSlash path := by
+  simp [resolvedPath, resolvePath, h]
+
+/-- **the path is the resolved path minus at most AMP markers at its end, an index page, the
+root slash and trailing slashes; the characters that remain are untouched (case included)
+until the final (un)quoting.**  ``resolvedPath` is the resolved path (unescaped, dot segments and double
+slashes resolved, trailing slash kept unless `strip_trailing_slash`).  Every step says what it
+may remove, and that it removes nothing when its option is off. -/
+theorem normalize_path_deletion (puny : Str → Str) (o : Opts) (hp : Bool) (p : Parsed) :
+    ∃ p2 p3 p4 pre t,
+      AmpDel false (resolvedPath o p.path) p2 ∧
+      (o.normalizeAmp = false → p2 = resolvedPath o p.path) ∧
+      (p3 = p2 ∨ (o.stripIndex = true ∧ IndexCut p2 p3)) ∧
+      (p4 = p3 ∨ (p3 = ['/'] ∧ p4 = [])) ∧
+      (p4 = pre ++ t ∧ (∀ c ∈ t, c = '/') ∧ (o.stripTrailingSlash = false → t = [])) ∧
+      (normComps puny o hp p).path = finPath o pre := by
+  let R := resolvedPath o p.path
+  let p2 := if o.normalizeAmp then ampSuffixSub R else R
+  let p3 := if o.stripIndex then stripIndex p2 else p2
+  let frag := normFragment o.stripFragment
+    (if o.lowercase then lower (unquoteFragment p.fragment) else unquoteFragment p.fragment)
+  let p4 : Str := if p3 = ['/'] ∧ frag.isEmpty ∧ (fixedQuery o p).isEmpty then [] else p3
+  let pre := if o.stripTrailingSlash && endsWith p4 ['/'] then rstripChars p4 ['/'] else p4
+  have hpath : (normComps puny o hp p).path = finPath o pre := by
+    simp only [normComps, normPath, pathSteps, finPath]
+    rfl
+  have h2 : AmpDel false R p2 := by
+    show AmpDel false R (if o.normalizeAmp then ampSuffixSub R else R)
+    split
+    · exact ampSuffixSub_del R
+    · exact AmpDel.refl _ _
+  have h3 : p3 = p2 ∨ (o.stripIndex = true ∧ IndexCut p2 p3) := by
+    show (if o.stripIndex then stripIndex p2 else p2) = p2 ∨ _
+    cases hi : o.stripIndex with
+    | false => left; simp
+    | true =>
+      simp only [if_true]
+      rcases stripIndex_spec p2 with h | h
+      · left; exact h
+      · right; exact ⟨by trivial, by simpa [p3, hi] using h⟩
+  have h4 : p4 = p3 ∨ (p3 = ['/'] ∧ p4 = []) := by
+    show (if p3 = ['/'] ∧ frag.isEmpty ∧ (fixedQuery o p).isEmpty then [] else p3) = p3 ∨ _
+    split
+    · rename_i h; right; exact ⟨h.1, by simp [p4, h]⟩
+    · left; rfl
+  obtain ⟨t, ht1, ht2⟩ := rstripChars_spec p4 ['/']
+  by_cases hs : (o.stripTrailingSlash && endsWith p4 ['/']) = true
+  · refine ⟨p2, p3, p4, pre, t, h2, ?_, h3, h4, ⟨?_, ?_, ?_⟩, hpath⟩
+    · intro ha; simp [p2, ha, R]
+    · show p4 = (if o.stripTrailingSlash && endsWith p4 ['/'] then rstripChars p4 ['/'] else p4) ++ t
+      rw [if_pos hs]; exact ht1
+    · intro c hc; simpa using ht2 c hc
+    · intro hf; simp [hf] at hs
+  · refine ⟨p2, p3, p4, pre, [], h2, ?_, h3, h4, ⟨?_, ?_, ?_⟩, hpath⟩
+    · intro ha; simp [p2, ha, R]
+    · show p4 = (if o.stripTrailingSlash && endsWith p4 ['/'] then rstripChars p4 ['/'] else p4) ++ []
+      rw [if_neg hs]; simp
+    · intro c hc; simp at hc
+    · intro _; rfl
+
+/-- the same chain with the AMP step sharpened: **at most one** AMP marker is removed
+(`AmpCutOnce`: the path is unchanged, or it is `a ++ m ++ e` with `m` an AMP marker — `.amp`
+or, after a slash, `amp`, ignoring case, with an optional slash — followed only by the end of
+the path `e` (or by `.html` and the end), and becomes `a ++ e`) -/
+theorem normalize_path_once (puny : Str → Str) (o : Opts) (hp : Bool) (p : Parsed) :
+    ∃ p2 p3 p4 pre t,
+      AmpCutOnce false (resolvedPath o p.path) p2 ∧
+      (o.normalizeAmp = false → p2 = resolvedPath o p.path) ∧
+      (p3 = p2 ∨ (o.stripIndex = true ∧ IndexCut p2 p3)) ∧
+      (p4 = p3 ∨ (p3 = ['/'] ∧ p4 = [])) ∧
+      (p4 = pre ++ t ∧ (∀ c ∈ t, c = '/') ∧ (o.stripTrailingSlash = false → t = [])) ∧
+      (normComps puny o hp p).path = finPath o pre := by
+  obtain ⟨p2, p3, p4, pre, t, h2, h2', h3, h4, h5, h6⟩ := normalize_path_deletion puny o hp p
+  exact ⟨p2, p3, p4, pre, t, h2.once, h2', h3, h4, h5, h6⟩
+
+/-- corollary: before the final (un)quoting the path is a subsequence of the resolved path —
+characters are only deleted, never added, changed or re-ordered -/
+theorem normalize_path_sublist (puny : Str → Str) (o : Opts) (hp : Bool) (p : Parsed) :
+    ∃ pre, pre.Sublist (resolvedPath o p.path) ∧
+      (normComps puny o hp p).path = finPath o pre := by
+  obtain ⟨p2, p3, p4, pre, t, h2, _, h3, h4, ⟨h5, _, _⟩, h6⟩ := normalize_path_deletion puny o hp p
+  refine ⟨pre, ?_, h6⟩
+  have s2 := h2.sublist
+  have s3 : p3.Sublist p2 := by
+    rcases h3 with h | ⟨_, h⟩
+    · rw [h]; exact List.Sublist.refl _
+    · exact h.prefix.sublist
+  have s4 : p4.Sublist p3 := by
+    rcases h4 with h | ⟨_, h⟩
+    · rw [h]; exact List.Sublist.refl _
+    · rw [h]; exact List.nil_sublist _
+  have s5 : pre.Sublist p4 := by rw [h5]; exact List.sublist_append_left _ _
+  exact ((s5.trans s4).trans s3).trans s2
+
+/-- non-vacuity: an index page, an AMP marker and a trailing slash are cut, case untouched -/
+example : pathSteps {} "/A/b/index.html".toList = "/A/b".toList ∧
+    pathSteps {} "/A/Story.amp.html".toList = "/A/Story.html".toList ∧
+    pathSteps {} "/A/b/amp/".toList = "/A/b/".toList ∧
+    pathSteps ({ stripIndex := false, normalizeAmp := false } : Opts) "/A/amp/index.html".toList = "/A/amp/index.html".toList := by
+  decide +kernel
+
+/-! ## query -/
+
+/-- the hostname the per-domain query filters look at: the parsed one, IDNA-decoded and
+lower-cased -/
+def filterHost (puny : Str → Str) (p : Parsed) : Option Str :=
+  p.hostname.map fun h => if h.isEmpty then h else lower (decodePunycodeHostname puny h)
+
+def lowerItem (it : QItem) : QItem := (lower it.1, it.2.map lower)
+
+/-- the unescaped items of the (mistake-repaired) input query, in order (lower-cased under the
+undocumented `lowercase` hook) -/
+def inputItems (o : Opts) (p : Parsed) : List QItem :=
+  if (fixedQuery o p).isEmpty then []
+  else if o.lowercase then (unquoteQsl (safeQslIter (fixedQuery o p))).map lowerItem
+  else unquoteQsl (safeQslIter (fixedQuery o p))
+
+/-- the final (un)quoting of the items -/
+def finQsl (o : Opts) (l : List QItem) : List QItem :=
+  if o.quoted then quoteQsl (unquoteQsl l) else unquoteQsl l
+
+/-- the predicate of the query filter for this URL -/
+def dropsItem (puny : Str → Str) (o : Opts) (p : Parsed) (it : QItem) : Prop :=
+  shouldStripQueryItem o.normalizeAmp o.queryItemFilter (domainFilter (filterHost puny p)) it = true
+
+/-- **the query is the input's items minus irrelevant ones, keys and values untouched**: the
+result items are the final (un)quoting of `ordered`, a permutation — the identity when
+`sort_query` is off — of `kept`, which is the list of unescaped input items minus items that
+all satisfy `shouldStripQueryItem`.  Through the documented API (`lowercase = false`) the
+final unquoting changes nothing (`unquoteQsl ordered = ordered`): in unquoted mode the result
+items *are* `ordered`, in quoted mode their quoted form. -/
+theorem normalize_query_sublist (puny : Str → Str) (o : Opts) (hp : Bool) (p : Parsed) :
+    ∃ kept ordered,
+      DelSub (dropsItem puny o p) (inputItems o p) kept ∧
+      ordered.Perm kept ∧ (o.sortQuery = false → ordered = kept) ∧
+      (normComps puny o hp p).qsl = finQsl o ordered ∧
+      (o.lowercase = false → unquoteQsl ordered = ordered) := by
+  let P := fun it => !shouldStripQueryItem o.normalizeAmp o.queryItemFilter (domainFilter (filterHost puny p)) it
+  let kept := (inputItems o p).filter P
+  let ordered := if o.sortQuery then sortQsl kept else kept
+  have hdel : DelSub (dropsItem puny o p) (inputItems o p) kept := by
+    have := DelSub.filter P (inputItems o p)
+    exact this.mono (fun a h => by simpa [P, dropsItem] using h)
+  have hperm : ordered.Perm kept := by
+    show (if o.sortQuery then sortQsl kept else kept).Perm kept
+    split
+    · exact sortQsl_perm kept
+    · exact List.Perm.refl _
+  have hfq : filterQuery o (filterHost puny p) (fixedQuery o p) = ordered := by
+    unfold filterQuery
+    cases he : (fixedQuery o p).isEmpty with
+    | true =>
+      have hk : kept = [] := by simp [kept, inputItems, he]
+      simp only [if_true]
+      show [] = if o.sortQuery then sortQsl kept else kept
+      rw [hk]; cases o.sortQuery <;> rfl
+    | false =>
+      simp only [Bool.false_eq_true, if_false]
+      show _ = if o.sortQuery then sortQsl kept else kept
+      have hk : kept = (if o.lowercase then (unquoteQsl (safeQslIter (fixedQuery o p))).map lowerItem
+          else unquoteQsl (safeQslIter (fixedQuery o p))).filter P := by
+        simp [kept, inputItems, he]
+      rw [hk]
+      rfl
+  refine ⟨kept, ordered, hdel, hperm, ?_, ?_, ?_⟩
+  · intro hs; simp [ordered, hs]
+  · have : (normComps puny o hp p).qsl =
+        (if o.quoted then quoteQsl (unquoteQsl (filterQuery o (filterHost puny p) (fixedQuery o p)))
+         else unquoteQsl (filterQuery o (filterHost puny p) (fixedQuery o p))) := rfl
+    rw [this, hfq]; rfl
+  · intro hl
+    apply unquoteQsl_fixed (q := safeQslIter (fixedQuery o p))
+    intro it hit
+    have h1 : it ∈ kept := hperm.subset hit
+    have h2 : it ∈ inputItems o p := (List.mem_filter.mp h1).1
+    unfold inputItems at h2
+    rw [hl] at h2
+    split at h2
+    · simp at h2
+    · simpa using h2
+
+/-- in particular (documented API, unquoted mode, `sort_query` off) the result items are a
+subsequence of the unescaped input items -/
+theorem normalize_query_subsequence (puny : Str → Str) (o : Opts) (hp : Bool) (p : Parsed)
+    (hl : o.lowercase = false) (hq : o.quoted = false) (hs : o.sortQuery = false) :
+    (normComps puny o hp p).qsl.Sublist (inputItems o p) := by
+  obtain ⟨kept, ordered, h1, _, h3, h4, h5⟩ := normalize_query_sublist puny o hp p
+  rw [h4, finQsl, hq, h3 hs]
+  have := h5 hl
+  rw [h3 hs] at this
+  simp only [Bool.false_eq_true, if_false, this]
+  exact h1.sublist
+
+/-- non-vacuity: tracking items go, the others stay as written, sorted -/
+example : filterQuery {} (some "a.com".toList) "utm_source=x&b=2&fbclid=1&a=1&ref=fb&ref=other".toList =
+    [("a".toList, some "1".toList), ("b".toList, some "2".toList), ("ref".toList, some "other".toList)] := by
+  decide +kernel
+
 /-- **Unparseable input is returned unchanged** (whatever the options). -/
 theorem normalize_unparseable_identity (puny : Str → Str) (parse : Str → Option Parsed)
     (platform : Str → Str) (o : Opts) (ir : Bool) (url : Str)
@@ -58,5 +412,288 @@ theorem normalize_unparseable_identity (puny : Str → Str) (parse : Str → Opt
     normalizeUrl puny parse platform o ir url = url ∧
     normalizeUrlSplit puny parse platform o ir url = .inl url := by
   simp [normalizeUrl, normalizeUrlSplit, h]
+
+/-- **totality**: the model of `normalize_url` has no error value — on every string, with
+every option setting, parser answer and decoder, it returns a string (the original one when
+the parser raises, `normalize_unparseable_identity`) -/
+theorem normalize_total (puny : Str → Str) (parse : Str → Option Parsed) (platform : Str → Str)
+    (o : Opts) (ir : Bool) (url : Str) :
+    (∃ s : Str, normalizeUrl puny parse platform o ir url = s) ∧
+    (∃ r : Str ⊕ Split, normalizeUrlSplit puny parse platform o ir url = r) := ⟨⟨_, rfl⟩, ⟨_, rfl⟩⟩
+
+/-- a parseable input goes through the component rules and `urlunsplit` -/
+theorem normalize_parseable (puny : Str → Str) (parse : Str → Option Parsed)
+    (platform : Str → Str) (o : Opts) (ir : Bool) (url : Str) (p : Parsed)
+    (h : parse (prepared platform ir url).1 = some p) :
+    normalizeUrlSplit puny parse platform o ir url = .inr (normParts puny o (prepared platform ir url).2 p) ∧
+    normalizeUrl puny parse platform o ir url =
+      finalString o (prepared platform ir url).2 (normParts puny o (prepared platform ir url).2 p) := by
+  simp [normalizeUrl, normalizeUrlSplit, h]
+
+/-! ## options: switched off, each one preserves its part and changes nothing else -/
+
+theorem finish_perm (quoted : Bool) {l1 l2 : List QItem} (h : l1.Perm l2) :
+    (if quoted then quoteQsl (unquoteQsl l1) else unquoteQsl l1).Perm
+      (if quoted then quoteQsl (unquoteQsl l2) else unquoteQsl l2) := by
+  cases quoted with
+  | false => exact h.map _
+  | true => exact (h.map _).map _
+
+theorem filterQuery_sort_perm (o : Opts) (h : Option Str) (q : Str) :
+    (filterQuery { o with sortQuery := true } h q).Perm (filterQuery { o with sortQuery := false } h q) := by
+  unfold filterQuery
+  cases he : q.isEmpty with
+  | true => simp
+  | false =>
+    simp only [Bool.false_eq_true, if_false, if_true]
+    exact sortQsl_perm _
+
+/-- `sort_query` off: the kept items stay in the order of the input (they are the same items
+as with the option on, which only permutes them); no other component changes -/
+theorem option_sort_query_off (puny : Str → Str) (o : Opts) (hp : Bool) (p : Parsed) :
+    let A := normComps puny { o with sortQuery := false } hp p
+    let B := normComps puny { o with sortQuery := true } hp p
+    A.scheme = B.scheme ∧ A.user = B.user ∧ A.pass = B.pass ∧ A.host = B.host ∧ A.port = B.port ∧
+    A.path = B.path ∧ A.fragment = B.fragment ∧ B.qsl.Perm A.qsl ∧
+    ∃ kept, DelSub (dropsItem puny o p) (inputItems o p) kept ∧ A.qsl = finQsl o kept := by
+  refine ⟨rfl, rfl, rfl, rfl, rfl, rfl, rfl, ?_, ?_⟩
+  · have eA : (normComps puny { o with sortQuery := false } hp p).qsl =
+        (if o.quoted then quoteQsl (unquoteQsl (filterQuery { o with sortQuery := false } (filterHost puny p) (fixedQuery o p)))
+         else unquoteQsl (filterQuery { o with sortQuery := false } (filterHost puny p) (fixedQuery o p))) := rfl
+    have eB : (normComps puny { o with sortQuery := true } hp p).qsl =
+        (if o.quoted then quoteQsl (unquoteQsl (filterQuery { o with sortQuery := true } (filterHost puny p) (fixedQuery o p)))
+         else unquoteQsl (filterQuery { o with sortQuery := true } (filterHost puny p) (fixedQuery o p))) := rfl
+    rw [eA, eB]
+    exact finish_perm _ (filterQuery_sort_perm o _ _)
+  · obtain ⟨kept, ordered, h1, _, h3, h4, _⟩ := normalize_query_sublist puny { o with sortQuery := false } hp p
+    exact ⟨kept, h1, by rw [h4, h3 rfl]; rfl⟩
+
+/-- `strip_authentication` off: user and password are the input's (unescaped, quoted again in
+quoted mode; case untouched); no other component changes -/
+theorem option_strip_authentication_off (puny : Str → Str) (o : Opts) (hp : Bool) (p : Parsed) :
+    let A := normComps puny { o with stripAuthentication := false } hp p
+    let B := normComps puny { o with stripAuthentication := true } hp p
+    A.user = canonOpt o.quoted unquoteAuthItem p.username ∧
+    A.pass = canonOpt o.quoted unquoteAuthItem p.password ∧
+    B.user = none ∧ B.pass = none ∧
+    A.scheme = B.scheme ∧ A.host = B.host ∧ A.port = B.port ∧ A.path = B.path ∧ A.qsl = B.qsl ∧
+    A.fragment = B.fragment := ⟨rfl, rfl, rfl, rfl, rfl, rfl, rfl, rfl, rfl, rfl⟩
+
+/-- `strip_trailing_slash` off: no trailing slash is removed — the resolved path keeps the
+slash the input ended with, and the last step of the path chain removes nothing; nothing but
+the path changes -/
+theorem option_strip_trailing_slash_off (puny : Str → Str) (o : Opts) (hp : Bool) (p : Parsed) :
+    let A := normComps puny { o with stripTrailingSlash := false } hp p
+    let B := normComps puny { o with stripTrailingSlash := true } hp p
+    A.scheme = B.scheme ∧ A.user = B.user ∧ A.pass = B.pass ∧ A.host = B.host ∧ A.port = B.port ∧
+    A.qsl = B.qsl ∧ A.fragment = B.fragment ∧
+    (∃ p2 p3 p4, AmpDel false (resolvedPath { o with stripTrailingSlash := false } p.path) p2 ∧
+      (p3 = p2 ∨ (o.stripIndex = true ∧ IndexCut p2 p3)) ∧ (p4 = p3 ∨ (p3 = ['/'] ∧ p4 = [])) ∧
+      A.path = finPath o p4) ∧
+    (∀ u, resolveUnquoted false u =
+      (if u.isEmpty then u
+       else if endsWith u ['/'] && decide (u.length > 1) then normpath u ++ ['/'] else normpath u)) := by
+  refine ⟨rfl, rfl, rfl, rfl, rfl, rfl, rfl, ?_, ?_⟩
+  · obtain ⟨p2, p3, p4, pre, t, h2, _, h3, h4, ⟨h5, _, h7⟩, h6⟩ :=
+      normalize_path_deletion puny { o with stripTrailingSlash := false } hp p
+    have ht : t = [] := h7 rfl
+    subst ht
+    exact ⟨p2, p3, p4, h2, h3, h4, by rw [h6, h5]; simp [finPath]⟩
+  · intro u; simp [resolveUnquoted]
+
+/-- `strip_index` off: the index page stays; nothing but the path changes -/
+theorem option_strip_index_off (puny : Str → Str) (o : Opts) (hp : Bool) (p : Parsed) :
+    let A := normComps puny { o with stripIndex := false } hp p
+    let B := normComps puny { o with stripIndex := true } hp p
+    A.scheme = B.scheme ∧ A.user = B.user ∧ A.pass = B.pass ∧ A.host = B.host ∧ A.port = B.port ∧
+    A.qsl = B.qsl ∧ A.fragment = B.fragment ∧
+    ∃ p2 p4 pre t, AmpDel false (resolvedPath o p.path) p2 ∧
+      (p4 = p2 ∨ (p2 = ['/'] ∧ p4 = [])) ∧ p4 = pre ++ t ∧ (∀ c ∈ t, c = '/') ∧
+      A.path = finPath o pre := by
+  refine ⟨rfl, rfl, rfl, rfl, rfl, rfl, rfl, ?_⟩
+  obtain ⟨p2, p3, p4, pre, t, h2, _, h3, h4, ⟨h5, h6, _⟩, h7⟩ :=
+    normalize_path_deletion puny { o with stripIndex := false } hp p
+  have : p3 = p2 := by
+    rcases h3 with h | ⟨h, _⟩
+    · exact h
+    · exact absurd h (by simp)
+  subst this
+  exact ⟨p3, p4, pre, t, h2, h4, h5, h6, h7⟩
+
+/-- `strip_protocol` off: the scheme is the input's (when it had one); nothing else changes -/
+theorem option_strip_protocol_off (puny : Str → Str) (o : Opts) (hp : Bool) (p : Parsed) :
+    let A := normComps puny { o with stripProtocol := false } hp p
+    let B := normComps puny { o with stripProtocol := true } hp p
+    A.scheme = (if hp then p.scheme else []) ∧ B.scheme = [] ∧
+    A.user = B.user ∧ A.pass = B.pass ∧ A.host = B.host ∧ A.port = B.port ∧ A.path = B.path ∧
+    A.qsl = B.qsl ∧ A.fragment = B.fragment := by
+  refine ⟨?_, rfl, rfl, rfl, rfl, rfl, rfl, rfl, rfl⟩
+  cases hp <;> simp [normComps]
+
+/-- `strip_irrelevant_subdomains` off: no label is removed — the host is the input's,
+lower-cased and IDNA-decoded (minus a leading `amp-` when `normalize_amp`); nothing else
+changes -/
+theorem option_strip_irrelevant_subdomains_off (puny : Str → Str) (o : Opts) (hp : Bool) (p : Parsed) :
+    let A := normComps puny { o with stripIrrelevantSubdomains := false } hp p
+    let B := normComps puny { o with stripIrrelevantSubdomains := true } hp p
+    (∀ h, p.hostname = some h → h ≠ [] →
+      A.host = some (if o.normalizeAmp then stripAmpPrefix puny (lower (decodePunycodeHostname puny h))
+        else lower (decodePunycodeHostname puny h))) ∧
+    A.scheme = B.scheme ∧ A.user = B.user ∧ A.pass = B.pass ∧ A.port = B.port ∧ A.path = B.path ∧
+    A.qsl = B.qsl ∧ A.fragment = B.fragment := by
+  refine ⟨?_, rfl, rfl, rfl, rfl, rfl, rfl, rfl⟩
+  intro h hh hne
+  have := (normHost_del puny { o with stripIrrelevantSubdomains := false } h hne).2 rfl
+  simp only [normComps, hh, Option.map_some]
+  rw [this]
+
+theorem normFragment_cases (sf : StripFragment) (f : Str) :
+    normFragment .no f = f ∧ (normFragment sf f = f ∨ normFragment sf f = []) := by
+  unfold normFragment
+  cases hf : f.isEmpty with
+  | true =>
+    have : f = [] := by cases f <;> simp_all
+    simp [this]
+  | false =>
+    simp only [Bool.false_eq_true, if_false, true_and]
+    cases sf with
+    | no => left; rfl
+    | yes => right; rfl
+    | exceptRouting => simp only; split <;> simp
+
+/-- the fragment reaches the path only through the root rule -/
+theorem normPath_fragment (o : Opts) (path fa fb q : Str) (h : fb = fa ∨ fb = []) :
+    normPath o path fa q = normPath o path fb q ∨
+    (normPath o path fa q = finPath o ['/'] ∧ normPath o path fb q = finPath o []) := by
+  rcases h with rfl | rfl
+  · left; rfl
+  · unfold normPath finPath
+    generalize pathSteps o path = p3
+    by_cases h3 : p3 = ['/']
+    · subst h3
+      cases hq : q.isEmpty <;> cases ha : fa.isEmpty <;> cases hs : o.stripTrailingSlash <;>
+        simp [endsWith, rstripChars]
+    · left; simp [h3]
+
+/-- the unescaped fragment of the input (lower-cased under the `lowercase` hook) -/
+def inputFragment (o : Opts) (p : Parsed) : Str :=
+  if o.lowercase then lower (unquoteFragment p.fragment) else unquoteFragment p.fragment
+
+/-- `strip_fragment` off: the fragment is the input's (unescaped, quoted again in quoted mode);
+nothing else changes, except that a root path `/` is not reduced to the empty path when the
+kept fragment is what stands behind it -/
+theorem option_strip_fragment_off (puny : Str → Str) (o : Opts) (hp : Bool) (p : Parsed)
+    (sf : StripFragment) :
+    let A := normComps puny { o with stripFragment := .no } hp p
+    let B := normComps puny { o with stripFragment := sf } hp p
+    A.fragment = requote o.quoted unquoteFragment (inputFragment o p) ∧
+    A.scheme = B.scheme ∧ A.user = B.user ∧ A.pass = B.pass ∧ A.host = B.host ∧ A.port = B.port ∧
+    A.qsl = B.qsl ∧ (A.path = B.path ∨ (A.path = finPath o ['/'] ∧ B.path = finPath o [])) := by
+  obtain ⟨hno, hsf⟩ := normFragment_cases sf (inputFragment o p)
+  refine ⟨?_, rfl, rfl, rfl, rfl, rfl, rfl, ?_⟩
+  · show requote o.quoted unquoteFragment (normFragment .no (inputFragment o p)) = _
+    rw [hno]
+  · have := normPath_fragment o p.path (inputFragment o p)
+      (normFragment sf (inputFragment o p)) (fixedQuery o p) hsf
+    have eA : (normComps puny { o with stripFragment := .no } hp p).path =
+        normPath o p.path (normFragment .no (inputFragment o p)) (fixedQuery o p) := rfl
+    have eB : (normComps puny { o with stripFragment := sf } hp p).path =
+        normPath o p.path (normFragment sf (inputFragment o p)) (fixedQuery o p) := rfl
+    rw [eA, eB, hno]
+    exact this
+
+/-- `normalize_amp` off: no AMP marker is removed from the path, the host keeps a leading
+`amp-` and its `amp` labels (`hostDel_no_amp`), the AMP query keys are not in the filter;
+scheme, userinfo, port and fragment do not change -/
+theorem option_normalize_amp_off (puny : Str → Str) (o : Opts) (hp : Bool) (p : Parsed) :
+    let A := normComps puny { o with normalizeAmp := false } hp p
+    let B := normComps puny { o with normalizeAmp := true } hp p
+    A.scheme = B.scheme ∧ A.user = B.user ∧ A.pass = B.pass ∧ A.port = B.port ∧ A.fragment = B.fragment ∧
+    (∃ p3 p4 pre t, (p3 = resolvedPath o p.path ∨
+        (o.stripIndex = true ∧ IndexCut (resolvedPath o p.path) p3)) ∧
+      (p4 = p3 ∨ (p3 = ['/'] ∧ p4 = [])) ∧ p4 = pre ++ t ∧ (∀ c ∈ t, c = '/') ∧ A.path = finPath o pre) ∧
+    (∀ h, p.hostname = some h → h ≠ [] → ∃ h', A.host = some h' ∧ HostDel puny false h h') := by
+  refine ⟨rfl, rfl, rfl, rfl, rfl, ?_, ?_⟩
+  · obtain ⟨p2, p3, p4, pre, t, _, h2, h3, h4, ⟨h5, h6, _⟩, h7⟩ :=
+      normalize_path_deletion puny { o with normalizeAmp := false } hp p
+    have := h2 rfl
+    subst this
+    exact ⟨p3, p4, pre, t, h3, h4, h5, h6, h7⟩
+  · intro h hh hne
+    exact normalize_host_deletion_only puny { o with normalizeAmp := false } hp p h hh hne
+
+/-- the query reaches the path only through the root rule -/
+theorem normPath_query (o : Opts) (path f qa qb : Str) :
+    normPath o path f qa = normPath o path f qb ∨
+    ((normPath o path f qa = finPath o ['/'] ∧ normPath o path f qb = finPath o []) ∨
+     (normPath o path f qa = finPath o [] ∧ normPath o path f qb = finPath o ['/'])) := by
+  unfold normPath finPath
+  generalize pathSteps o path = p3
+  by_cases h3 : p3 = ['/']
+  · subst h3
+    cases ha : qa.isEmpty <;> cases hb : qb.isEmpty <;> cases hf : f.isEmpty <;>
+      cases hs : o.stripTrailingSlash <;> simp [endsWith, rstripChars]
+  · left; simp [h3]
+
+/-- `fix_common_mistakes` off: the query is split as written; scheme, userinfo, host, port and
+fragment do not change, the path at most by the root rule (which asks whether the query is
+empty) -/
+theorem option_fix_common_mistakes_off (puny : Str → Str) (o : Opts) (hp : Bool) (p : Parsed) :
+    let A := normComps puny { o with fixCommonMistakes := false } hp p
+    let B := normComps puny { o with fixCommonMistakes := true } hp p
+    fixedQuery { o with fixCommonMistakes := false } p = p.query ∧
+    A.scheme = B.scheme ∧ A.user = B.user ∧ A.pass = B.pass ∧ A.host = B.host ∧ A.port = B.port ∧
+    A.fragment = B.fragment ∧
+    (A.path = B.path ∨ ((A.path = finPath o ['/'] ∧ B.path = finPath o []) ∨
+      (A.path = finPath o [] ∧ B.path = finPath o ['/']))) := by
+  refine ⟨by simp [fixedQuery], rfl, rfl, rfl, rfl, rfl, rfl, ?_⟩
+  exact normPath_query o p.path _ _ _
+
+/-- `infer_redirection` off: the argument itself is cleaned and parsed -/
+theorem option_infer_redirection_off (platform : Str → Str) (url : Str) :
+    prepared platform false url = (platform (ensureHttp (preClean url)), hasProtocol (preClean url)) := rfl
+
+/-- non-vacuity: every option, switched off alone on the sample URL -/
+example :
+    (normComps id { sortQuery := false } true sample).qsl = [("b".toList, some "2".toList), ("a".toList, some "1".toList)] ∧
+    (normComps id {} true sample).qsl = [("a".toList, some "1".toList), ("b".toList, some "2".toList)] ∧
+    (normComps id { stripAuthentication := false } true sample).user = some "User".toList ∧
+    (normComps id { stripIndex := false } true sample).path = "/A/b/index.html".toList ∧
+    (normComps id {} true sample).path = "/A/b".toList ∧
+    (normComps id { stripProtocol := false } true sample).scheme = "http".toList ∧
+    (normComps id { stripIrrelevantSubdomains := false } true sample).host = some "www.m.example.com".toList ∧
+    (normComps id {} true sample).host = some "example.com".toList ∧
+    (normComps id { stripFragment := .no } true sample).fragment = "top".toList ∧
+    (normComps id {} true sample).fragment = [] := by decide +kernel
+
+/-! ## platform_aware=True: partial -/
+
+/-- the full statement for `platform_aware=True` — the result is the one obtained from the
+string as written — does not hold: the facebook / youtube branch rewrites the string before
+it is parsed (D53) -/
+def FullPlatform : Prop :=
+  ∀ (puny : Str → Str) (parse : Str → Option Parsed) (platform : Str → Str) (o : Opts) (ir : Bool)
+    (url : Str), normalizeUrl puny parse platform o ir url = normalizeUrl puny parse id o ir url
+
+/-- **partial**: when the platform branch leaves the string alone (not a facebook / youtube
+URL, or one the platform parsers do not rewrite) everything above applies to the input as
+written -/
+theorem normalize_platform_partial (puny : Str → Str) (parse : Str → Option Parsed)
+    (platform : Str → Str) (o : Opts) (ir : Bool) (url : Str)
+    (h : platform (prepared id ir url).1 = (prepared id ir url).1) :
+    normalizeUrl puny parse platform o ir url = normalizeUrl puny parse id o ir url ∧
+    normalizeUrlSplit puny parse platform o ir url = normalizeUrlSplit puny parse id o ir url := by
+  have : prepared platform ir url = prepared id ir url := by
+    simp only [prepared, id] at h ⊢
+    rw [h]
+  simp [normalizeUrl, normalizeUrlSplit, this]
+
+/-- the excluded region really fails: a rewriting branch changes the result -/
+theorem fullPlatform_false : ¬ FullPlatform := by
+  intro h
+  have := h id (fun s => if s = "http://x".toList then some sample else none)
+    (fun _ => "http://x".toList) {} false "a".toList
+  revert this
+  decide +kernel
 
 end Ural.Props.C05
